@@ -57,9 +57,12 @@ func c08Build(rng *rand.Rand, nHot, nCold, rounds, hotBlock int) *c08Hist {
 	plan := tagPlan{TagNames: c08Tags, Style: gen.MsgMixed, MaxRules: 3, Unknown: true, Groups: true, seq: &seq}
 	// no Go maps inside the values: their iteration order would make the error text differ between
 	// two executions for reasons that have nothing to do with the cache
-	to := gen.TypeOpts{MaxFields: 5, MaxDepth: 2, Leaf: vLeafTypes, Unexported: true, Ptr: true, PtrPtr: true, Slices: true, Arrays: true, Maps: false, Tag: plan.ruleTag}
+	to := gen.TypeOpts{MaxFields: 5, MaxDepth: 2, Leaf: vLeafTypes, Unexported: true, Ptr: true, PtrPtr: true, Slices: true, Arrays: true, Maps: false, Tag: plan.ruleTag, Time: true}
 	for i := 0; i < nHot; i++ {
 		t := gen.RandStruct(rng, to)
+		if i%2 == 1 && len(namedTypesNoMap) > 0 {
+			t = namedTypesNoMap[rng.Intn(len(namedTypesNoMap))] // named type (non-empty struct name in paths and name-keyed state)
+		}
 		h.HotTypes = append(h.HotTypes, t)
 		vals := []reflect.Value{}
 		for j := 0; j < 3; j++ {
@@ -288,7 +291,7 @@ func (a *amnesiacCache) Store(k, v interface{}) {
 	a.m[k] = v
 }
 
-var c08Configs = []string{"default", "lru512", "lru0", "lru1", "lru2", "lru3", "lru8", "syncmap", "alwaysmiss", "amnesiac", "default-reversed", "default-doubled", "lru2-reversed", "syncmap-reversed"}
+var c08Configs = []string{"default", "lru512", "lru0", "lru1", "lru2", "lru3", "lru8", "syncmap", "alwaysmiss", "amnesiac", "default-reversed", "default-doubled", "lru2-reversed", "syncmap-reversed", "barelru1", "barelru2", "barelru8"}
 
 func c08Sizes(t core.Tier) (nHot, nCold, rounds, hotBlock int) {
 	if t == core.Thorough {
@@ -300,8 +303,8 @@ func c08Sizes(t core.Tier) (nHot, nCold, rounds, hotBlock int) {
 func init() {
 	core.Register(&core.Prop{
 		ID: "C08",
-		Rule: "one seeded call history (hot struct types synthesised with reflect.StructOf carrying independent rule sets under the tag names valid / a / b, 3 values each; patterns A-then-B and A-B-A on one type, override-then-plain, plus sweeps over 620 one-off types that push everything out of a 512-entry cache) is executed unchanged in 14 child processes that differ only in the cache installed through SetStructTypeCache " +
-			"(default LRU, NewLRU(512/0/1/2/3/8), sync.Map, always-miss, amnesiac) or in the order of the calls (reversed, every call doubled); per call id the sorted clause list must be identical in all children. distinct = distinct (call id, configuration); non-trivial = the call returned at least one clause in the baseline",
+		Rule: "one seeded call history (hot struct types synthesised with reflect.StructOf carrying independent rule sets under the tag names valid / a / b, 3 values each; patterns A-then-B and A-B-A on one type, override-then-plain, plus sweeps over 620 one-off types that push everything out of a 512-entry cache) is executed unchanged in 17 child processes that differ only in the cache installed through SetStructTypeCache " +
+			"(default LRU, NewLRU(512/0/1/2/3/8) instrumented and NewLRU(1/2/8) bare, sync.Map, always-miss, amnesiac) or in the order of the calls (reversed, every call doubled); per call id the sorted clause list must be identical in all children. distinct = distinct (call id, configuration); non-trivial = the call returned at least one clause in the baseline",
 		Parent: parentC08,
 		Run:    runC08,
 		Timeout: func(t core.Tier) time.Duration {
@@ -496,6 +499,11 @@ func runC08(c *core.Ctx) {
 	var inner valid.CacheEr
 	switch {
 	case kind == "default":
+	case strings.HasPrefix(kind, "barelru"):
+		// the library's own *LRUCache handed over as it is (not wrapped, no callback of ours): code
+		// that special-cases *LRUCache in SetStructTypeCache is only reached this way
+		n, _ := strconv.Atoi(kind[7:])
+		valid.SetStructTypeCache(valid.NewLRU(n))
 	case strings.HasPrefix(kind, "lru"):
 		n, _ := strconv.Atoi(kind[3:])
 		l := valid.NewLRU(n)
@@ -543,8 +551,8 @@ func runC08(c *core.Ctx) {
 	if strings.Contains(cfg, "-") {
 		return // the order variants share their counters' names with the plain configuration
 	}
-	if kind == "default" {
-		return // the default cache object cannot be observed; lru512 is the same cache, instrumented
+	if kind == "default" || strings.HasPrefix(kind, "barelru") {
+		return // these cache objects are not instrumented; lru512 / lruN are the same caches, instrumented
 	}
 	res.Count(kind+"|hits", st.hits)
 	res.Count(kind+"|misses", st.misses)
